@@ -350,9 +350,14 @@ def oracle(session, out):
                 why = fin_oracle(w, ow, ret, nlen, vl, buf, prev, plen, cap, compat, flags, padded)
                 if why:
                     return why
-                if ret != 0:
-                    newattrs = S.attrs_of(buf[:nlen], padded)
-                    attrs = newattrs
+                # a finish that returns 0 may already have appended MESSAGE-INTEGRITY (the state of the
+                # message is then unspecified, but it stays inside the buffer): re-read the attributes
+                if nlen > cap:
+                    return f"fin: message length {nlen} exceeds the buffer size {cap}"
+                if vl == str(nlen) and S.verdict(buf[:nlen], padded) == nlen:
+                    attrs = S.attrs_of(buf[:nlen], padded)
+                elif ret != 0:
+                    return "finished message is not well formed"
                 prev, plen = buf, nlen
                 continue
             ok_ret = (ret == 0) if op == "app" else (ret != 0)
